@@ -57,7 +57,7 @@ def run(ctx):
             nf += 1
             ctx.count(('fmt', n), nontrivial=abs(n) >= 10)
             try:
-                with watchdog(5):
+                with watchdog(30):
                     got = dewies_to_lbc(n)
             except Exception as e:  # pylint: disable=broad-except
                 ctx.violation('fmt-raises', f'dewies_to_lbc({n}) raised {type(e).__name__}: {e}', {'n': n})
@@ -81,7 +81,7 @@ def run(ctx):
             npz += 1
             ctx.count(('parse', text), nontrivial=len(text) >= 3)
             try:
-                with watchdog(5):
+                with watchdog(30):
                     got = lbc_to_dewies(text)
                 raised = None
             except Exception as e:  # pylint: disable=broad-except
